@@ -40,7 +40,7 @@ def jobs_for(ctx):
         test = [rng.choice(S + S3 + extra) for _ in range(rng.randint(1, 3))]
         if rng.random() < 0.4:
             test.append(rng.choice(["xyz", "abxab", "b", "", "zzzz" + train[0]]))
-        jobs.append(dict(train=train, test=test, cfg=dict(vocab=rng.choice([1, 2, 3, 8, 50]), minocc=rng.choice([1, 1, 2]),
+        jobs.append(dict(train=train, test=test, reuse=len(jobs) % 3 == 1, cfg=dict(vocab=rng.choice([1, 2, 3, 8, 50]), minocc=rng.choice([1, 1, 2]),
                                                           mcc=rng.choice([0, 0, 97, "ascii"]))))
     return jobs
 
